@@ -665,9 +665,17 @@ class Guards:
         elif val == "1" and "0" in others:
             pol = True
         else:
+            # `match x { CONST => .., other => .. }` on an integer: the same facts as `x == CONST` / `x != CONST`
             if val == "otherwise":
-                return ["%s !in {%s}" % (cond, ",".join(others))]
-            return ["%s == %s" % (cond, val)]
+                out_ = ["%s !in {%s}" % (cond, ",".join(others))]
+                for o_ in others:
+                    if re.match(r"^\d+$", str(o_)):
+                        out_ += ["(Ne(%s,const:%s))" % (cond, o_), "(Ne(const:%s,%s))" % (o_, cond)]
+                return out_
+            out_ = ["%s == %s" % (cond, val)]
+            if re.match(r"^\d+$", str(val)):
+                out_ += ["(Eq(%s,const:%s))" % (cond, val), "(Eq(const:%s,%s))" % (val, cond)]
+            return out_
         return canon_bool(cond, pol)
 
 
